@@ -285,6 +285,12 @@ pub struct Tweaks {
     pub wrong_aux_hash: bool,
     /// put a wrong script-data hash into the body
     pub wrong_script_data_hash: bool,
+    /// move k times the fee into the change output (k = 1: the fee is declared but not paid)
+    #[serde(default)]
+    pub change_plus_fee: i8,
+    /// distribute assets to the outputs as if the minted amounts had the opposite sign
+    #[serde(default)]
+    pub mint_sign_flip: bool,
 }
 
 pub fn forge(spec: &Spec) -> Result<Forged, String> {
@@ -374,7 +380,7 @@ pub fn forge_with(spec: &Spec, tw: &Tweaks) -> Result<Forged, String> {
             }
             let k = (native_policy(*p), vec![b'a' + (nm % 6)]);
             let e = pool.entry(k).or_insert(0);
-            *e += *q as i128;
+            *e += if tw.mint_sign_flip { -(*q as i128) } else { *q as i128 };
         }
         if pool.values().any(|q| *q < 0) {
             return Err("burn exceeds what the inputs hold".into());
@@ -609,7 +615,7 @@ pub fn forge_with(spec: &Spec, tw: &Tweaks) -> Result<Forged, String> {
         return Err("inputs do not cover outputs + fee + a change output".into());
     }
     let mut change = (total_coin - need) as u64;
-    change = (change as i64 + tw.change_delta).max(0) as u64;
+    change = (change as i128 + tw.change_delta as i128 + tw.change_plus_fee as i128 * fee as i128).clamp(0, u64::MAX as i128) as u64;
     if let Some(f) = tw.fee_override {
         fee = f;
     }
